@@ -40,7 +40,8 @@ class Proc:
     def __init__(self, name, parent=None):
         self.pid = next(Proc._pids)
         self.name = name
-        self.handlers = {}
+        # fork: the child starts with the signal dispositions its parent has at that moment
+        self.handlers = dict(parent.handlers) if parent is not None else {}
         self.pending = []
         self.killed = False
         self.main_st = None
